@@ -42,6 +42,7 @@ type GenSpec struct {
 	Module, Cfg string
 	Max         int // max histories replayed
 	Timeout     time.Duration
+	Keys, Times bool // index configuration of the model constants in Cfg
 }
 
 type Violation struct {
@@ -77,6 +78,9 @@ type SeqRun struct {
 	TraceSt  int
 	NHist    int
 	Exhaust  bool
+	NGen      int
+	GenStates int
+	Drift     int
 }
 
 func (r *SeqRun) infra(format string, a ...any) {
@@ -127,6 +131,21 @@ func (r *SeqRun) execHistories(hs []*History, tag string) {
 				x := NewExec(h, dir, tw, r.P.Obs)
 				x.sigHook = func() { sigs[fmt.Sprintf("%v%v|%s", h.Keys, h.Times, dirSig(dir))] = struct{}{} }
 				x.Run()
+				if h.ExpBases != nil && !x.dead {
+					// drift: does the real layout equal the one the implementation-shaped model predicts?
+					var got []int64
+					for _, sp := range projectDir(dir, h.Times, h.Keys).Segs {
+						got = append(got, sp.Base)
+					}
+					if fmt.Sprint(got) != fmt.Sprint(h.ExpBases) {
+						r.mu.Lock()
+						r.Drift++
+						if r.Drift <= 3 {
+							fmt.Printf("MODEL-DRIFT history %d: segment bases %v, KlevSeg predicts %v\n", h.ID, got, h.ExpBases)
+						}
+						r.mu.Unlock()
+					}
+				}
 				os.RemoveAll(dir)
 			}
 			tw.Close()
